@@ -48,8 +48,6 @@ KANI = {
         'harnesses': {
             'vk_int_convert_small_to_f32': {'kind': 'complete', 'domain': 'all DoubleWord (u128) via TypedReprRef::RefSmall'},
             'vk_int_convert_small_to_f64': {'kind': 'complete', 'domain': 'all DoubleWord (u128) via TypedReprRef::RefSmall'},
-            'vk_int_convert_small_ibig_to_f32': {'kind': 'complete', 'domain': 'IBig::from(x) for all i128 x'},
-            'vk_int_convert_small_ibig_to_f64': {'kind': 'complete', 'domain': 'IBig::from(x) for all i128 x'},
         },
     },
 }
